@@ -218,6 +218,9 @@ ComponentPtr ComponentEntity::takeComponent(const std::string &name, bool search
 bool ComponentEntity::replaceComponent(size_t index, const ComponentPtr &newComponent)
 {
     bool status = false;
+    if (newComponent == nullptr) {
+        return status;
+    }
     auto oldComponent = component(index);
     ParentedEntityPtr parent = nullptr;
     if (oldComponent != nullptr) {
